@@ -88,6 +88,8 @@ func runOne(id string, pd *propDef, tier, repo, verif, tags, dump string) (rc in
 		c.debugDump(dump)
 		return 0
 	}
+	// (the property's own rules are all being recorded: a shared rule that asks for part of them again finds them there)
+	c.running = map[string]bool{fmt.Sprintf("%p", pd.run): true}
 	pd.run(c)
 	if tier == "thorough" {
 		c.thorough(pd)
